@@ -247,8 +247,10 @@ type egressRule struct {
 
 type rule struct {
 	ipTable, netTable *ipsetTable
-	tcpPorts          []string
-	udpPorts          []string
+	// allPeers is true if the rule lists no peer, which matches all sources (ingress) or all destinations (egress)
+	allPeers bool
+	tcpPorts []string
+	udpPorts []string
 }
 
 type ipsetTable struct {
@@ -317,7 +319,7 @@ func ingressOrEgress(np *networkv1.NetworkPolicy) (ingress bool, egress bool) {
 
 func (p *PolicyManager) peerRule(ports []networkv1.NetworkPolicyPort, peers []networkv1.NetworkPolicyPeer) *rule {
 	tcpPorts, udpPorts := rulePorts(ports)
-	rule := rule{tcpPorts: tcpPorts, udpPorts: udpPorts}
+	rule := rule{tcpPorts: tcpPorts, udpPorts: udpPorts, allPeers: len(peers) == 0}
 	for j := range peers {
 		tbl, err := p.peerTable(&peers[j])
 		if err != nil {
@@ -597,6 +599,10 @@ func (p *PolicyManager) writeRules(polices []policy, existingChains map[utilipta
 				if rule.netTable != nil {
 					srcTableNames = append(srcTableNames, rule.netTable.Name)
 				}
+				if rule.allPeers {
+					// an empty table name writes no source match
+					srcTableNames = []string{""}
+				}
 				writePolicyChainRules(filterRules, string(policyChain), policyNameComment, srcTableNames,
 					[]string{policy.ingressRule.dstIPTable.Name}, rule.tcpPorts, rule.udpPorts)
 			}
@@ -609,6 +615,10 @@ func (p *PolicyManager) writeRules(polices []policy, existingChains map[utilipta
 				}
 				if rule.netTable != nil {
 					dstTableNames = append(dstTableNames, rule.netTable.Name)
+				}
+				if rule.allPeers {
+					// an empty table name writes no destination match
+					dstTableNames = []string{""}
 				}
 				writePolicyChainRules(filterRules, string(policyChain), policyNameComment,
 					[]string{policy.egressRule.srcIPTable.Name}, dstTableNames, rule.tcpPorts, rule.udpPorts)
@@ -695,9 +705,13 @@ func writePolicyChainRules(filterRules *bytes.Buffer, policyChainName, policyNam
 	srcTableNames, dstTableNames, tcpPorts, udpPorts []string) {
 	for _, srcTableName := range srcTableNames {
 		for _, dstTableName := range dstTableNames {
-			setRules := []string{
-				"-m", "set", "--match-set", srcTableName, "src",
-				"-m", "set", "--match-set", dstTableName, "dst"}
+			var setRules []string
+			if srcTableName != "" {
+				setRules = append(setRules, "-m", "set", "--match-set", srcTableName, "src")
+			}
+			if dstTableName != "" {
+				setRules = append(setRules, "-m", "set", "--match-set", dstTableName, "dst")
+			}
 			if len(tcpPorts) > 0 {
 				args := []string{
 					"-A", policyChainName,
